@@ -31,6 +31,7 @@ fn run(a: &[String]) -> String {
         "calc_excess_blob_gas" => revm_primitives::calc_excess_blob_gas(u(&a[1]), u(&a[2]), u(&a[3])).to_string(),
         "frame_depth_all" => scenarios::frame_depth_all(&a[1]),
         "frame_depth" => scenarios::frame_depth(&a[1], &a[2]),
+        "depth_limit" => scenarios::depth_limit(),
         "handler_flag" => scenarios::handler_flag(&a[1], a[2] == "true"),
         "has_storage_layer" => scenarios::has_storage_layer(&a[1]),
         "journal_clear_leak" => scenarios::journal_clear_leak(),
